@@ -28,7 +28,7 @@ pub fn noise(n: usize) -> Vec<u8> {
 pub fn cases<'a>(entries: &'a [Entry], thorough: bool, per_entry: usize) -> Vec<(&'a Entry, Val)> {
     let mut out = vec![];
     for (i, e) in entries.iter().enumerate() {
-        let take = e.family == "lib" || i % if thorough { 3 } else { 10 } == 0;
+        let take = e.family == "lib" || i % if thorough { 3 } else { 10 } == 0 || (per_entry >= 3 && e.ty.feature_string().contains("versioned_field"));
         if !take {
             continue;
         }
@@ -76,7 +76,7 @@ fn begin(d: &mut Driver, kind: &str, what: &str, c: &str, v: &Val) -> bool {
         d.pos,
         d.sno,
         json!({"kind": kind, "type": what, "rust_type": what, "version": 0, "container": c, "context": "Single",
-            "value": if matches!(v, Val::Seq(x) if x.len() > 200) { json!("<big sequence>") } else { to_json(v) }})
+            "value": if matches!(v, Val::Seq(x) if x.len() > 200) { json!("<big sequence>") } else if matches!(v, Val::Str(x) if x.len() > 2000) { json!("<big string>") } else { to_json(v) }})
     ));
     true
 }
@@ -105,8 +105,12 @@ pub fn cut_offsets(len: usize, thorough: bool) -> Vec<usize> {
 }
 
 pub fn trunc_case(e: &Entry, val: &Val, ver: u32, thorough: bool, out: &mut Vec<Finding>, st: &mut Stats, d: &mut Driver) {
+    trunc_case_in(e, val, ver, thorough, &CONTAINERS, out, st, d)
+}
+#[allow(clippy::too_many_arguments)]
+pub fn trunc_case_in(e: &Entry, val: &Val, ver: u32, thorough: bool, containers: &[Container], out: &mut Vec<Finding>, st: &mut Stats, d: &mut Driver) {
     let want = canon(&e.ty, val);
-    for c in CONTAINERS {
+    for &c in containers {
         if !begin(d, "trunc", &e.ty.rust(), &format!("{:?}", c), val) {
             continue;
         }
@@ -518,6 +522,34 @@ pub fn io_case(e: &Entry, val: &Val, thorough: bool, out: &mut Vec<Finding>, st:
         }
         let nr = r0.calls;
         st.add("C08.cases", 1);
+        // a buffering layer between the library and the sink (what save_file* do with BufWriter):
+        // when save returns Ok, everything must have reached the sink, because whoever drops
+        // the buffer afterwards cannot report a failure any more
+        {
+            let mut sink = FaultW::new(Plan::default(), usize::MAX);
+            let res;
+            let at_return;
+            {
+                let mut bw = std::io::BufWriter::with_capacity(1 << 16, &mut sink);
+                res = e.ops.save(c, ver, Ctx::Single, std::slice::from_ref(val), &mut bw);
+                at_return = bw.buffer().len();
+                std::mem::forget(bw); // judge what had arrived when save returned
+            }
+            st.add("C08.executions", 1);
+            st.add("C08.deviation_fired", 1);
+            st.add("transitions", 1);
+            let complete = if c == Container::Encrypted { sink.accepted.len() == reference.len() } else { sink.accepted == reference };
+            if res.is_ok() && (!complete || at_return != 0) {
+                io_fail(
+                    out,
+                    "output_left_in_buffer_after_successful_save",
+                    &ic,
+                    "write",
+                    &Plan::default(),
+                    format!("save returned Ok but {} bytes were still buffered above the sink ({} of {} bytes delivered)", at_return, sink.accepted.len(), reference.len()),
+                );
+            }
+        }
         // chunk schedules
         for chunks in [vec![1], vec![2], vec![3], vec![7], vec![64], vec![1, 2, 3, 7, 64]] {
             run_write(&ic, Plan { devs: vec![], chunks: chunks.clone(), sticky: true }, &reference, out, st);
@@ -559,10 +591,54 @@ pub fn io_case(e: &Entry, val: &Val, thorough: bool, out: &mut Vec<Finding>, st:
     }
 }
 
+/// the file-based save functions against a device that accepts nothing (/dev/full): every write
+/// that reaches the OS fails with ENOSPC; buffered layers only notice when they are flushed
+pub fn dev_full_case(fc: &FileCase, out: &mut Vec<Finding>, st: &mut Stats, d: &mut Driver) {
+    if !std::path::Path::new("/dev/full").exists() {
+        return;
+    }
+    let mut vals = file_vals(fc);
+    // one value larger than any buffering layer
+    if fc.name == "Vec<u8>" {
+        vals.push(Val::Seq(noise(20_000).into_iter().map(|b| Val::U(b as u128)).collect()));
+    }
+    for val in vals {
+        for kind in FILE_KINDS {
+            if !begin(d, "dev_full", fc.name, &format!("{:?}", kind), &val) {
+                continue;
+            }
+            st.add("C08.executions", 1);
+            st.add("C08.deviation_fired", 1);
+            st.add("C08.dev_full_saves", 1);
+            st.add("transitions", 1);
+            let res = (fc.save)(kind, std::path::Path::new("/dev/full"), &val, PASSWORD);
+            let bad = match res {
+                Ok(()) => Some(("write_failure_reported_as_success", "saving to /dev/full (every write fails with ENOSPC) returned Ok".to_string())),
+                Err(OpErr::Panic(m)) => Some(("io_fault_panic", format!("panic: {}", m))),
+                Err(_) => None,
+            };
+            if let Some((oracle, msg)) = bad {
+                out.push(viol(
+                    &["C08"],
+                    oracle,
+                    &[("container", format!("{:?}", kind)), ("side", "write".into()), ("api", "file".into()), ("deviations", "ENOSPC".into())],
+                    format!("file API {} {:?} -> /dev/full: {}", fc.name, kind, msg),
+                    json!({"kind": "dev_full", "file_case": fc.name, "container": format!("{:?}", kind), "value": if matches!(&val, Val::Seq(x) if x.len() > 200) { json!("<20000 noise bytes>") } else { to_json(&val) }, "message": msg}),
+                ));
+            }
+        }
+    }
+}
+
 // =============================================================================== items
 
 fn big_entry(entries: &[Entry]) -> Option<&Entry> {
     entries.iter().find(|e| e.family == "lib" && e.ty.rust() == "Vec<u8>")
+}
+/// strings longer than 64 KiB (read through a different code path than short ones)
+fn big_strings(thorough: bool) -> Vec<Val> {
+    let sizes: &[usize] = if thorough { &[65_535, 65_536, 65_537, 100_000] } else { &[65_537, 100_000] };
+    sizes.iter().map(|n| Val::Str("s".repeat(*n))).collect()
 }
 fn big_vals(thorough: bool) -> Vec<Val> {
     let sizes: &[usize] = if thorough { &[99_999, 100_000, 100_001, 200_000, 200_001] } else { &[200_001] };
@@ -572,8 +648,8 @@ fn big_vals(thorough: bool) -> Vec<Val> {
 /// number of work items for a property
 pub fn items(prop: &str, entries: &[Entry], thorough: bool) -> usize {
     match prop {
-        "C07" => cases(entries, thorough, 3).len() + file_cases().len() + big_vals(thorough).len(),
-        "C08" => cases(entries, thorough, 1).len().min(if thorough { 120 } else { 40 }) + 1,
+        "C07" => cases(entries, thorough, 3).len() + file_cases().len() + big_vals(thorough).len() + big_strings(thorough).len(),
+        "C08" => cases(entries, thorough, 1).len().min(if thorough { 120 } else { 40 }) + 1 + file_cases().len(),
         "C14" => c14_cases(entries, thorough).len() + file_cases().len() + big_vals(thorough).len(),
         _ => 0,
     }
@@ -601,11 +677,17 @@ pub fn run_item(prop: &str, entries: &[Entry], thorough: bool, pos: usize, d: &m
                 let fc = &fcs[pos - cs.len()];
                 trunc_file_case(fc, thorough, &mut out, st, d);
                 sample = json!({"file_api_type": fc.name});
-            } else {
+            } else if pos < cs.len() + fcs.len() + big_vals(thorough).len() {
                 let e = big_entry(entries).unwrap_or_else(|| vcommon::machinery_error("Vec<u8> not in lib family"));
                 let v = &big_vals(thorough)[pos - cs.len() - fcs.len()];
                 trunc_case(e, v, 0, thorough, &mut out, st, d);
                 sample = json!({"type": "Vec<u8> of incompressible bytes", "len": v.fields().len()});
+            } else {
+                // a long string as the last thing in the file: plain and schema-less containers
+                let e = entries.iter().find(|e| e.family == "lib" && e.ty.rust() == "String").unwrap_or_else(|| vcommon::machinery_error("String not in lib family"));
+                let v = &big_strings(thorough)[pos - cs.len() - fcs.len() - big_vals(thorough).len()];
+                trunc_case_in(e, v, 0, thorough, &[Container::Plain, Container::NoSchema, Container::Bare], &mut out, st, d);
+                sample = json!({"type": "String", "len": v.as_str().len()});
             }
         }
         "C08" => {
@@ -616,6 +698,10 @@ pub fn run_item(prop: &str, entries: &[Entry], thorough: bool, pos: usize, d: &m
                 let (e, v) = &cs[(pos * step).min(cs.len() - 1)];
                 io_case(e, v, thorough, &mut out, st, d);
                 sample = json!({"type": e.ty.describe(), "value": to_json(v)});
+            } else if pos > n {
+                let fc = &fcs[pos - n - 1];
+                dev_full_case(fc, &mut out, st, d);
+                sample = json!({"file_api_type": fc.name, "device": "/dev/full"});
             } else {
                 // a multi-block payload through the compressed and encrypted containers
                 let e = big_entry(entries).unwrap_or_else(|| vcommon::machinery_error("Vec<u8> not in lib family"));
